@@ -809,6 +809,8 @@ def adapt_typehints(
         if serialize:
             if isinstance(val, typehint):
                 val = val.name
+            elif not isinstance(val, str):
+                raise_unexpected_value(f"Expected a member of {typehint}", val)
         elif not isinstance(val, typehint):
             try:
                 val = typehint[val]
